@@ -122,15 +122,16 @@ def sna128 (a : AState) : Bytes :=
   snaHeader a.regs a.regs.sp a.border ++ a.page 5 ++ a.page 2 ++ a.page n ++
     [lo8 a.regs.pc, hi8 a.regs.pc, a.latch, 0] ++ (snaTail n).flatMap a.page
 
+/-- a CPU write: lost below 0x4000 (ROM), else into the page mapped there -/
+def AState.poke (a : AState) (addr : Nat) (v : Byte) : AState :=
+  if addr < 16384 then a else
+  let n := a.pageAt (addr / 16384)
+  a.withPage n ((a.page n).set (addr % 16384) v)
+
 /-- RAM 0x4000–0xFFFF of a 48K state with PC pushed (a write to ROM is lost) -/
 def pushed48 (a : AState) : AState :=
-  let put (a : AState) (addr : Nat) (v : Byte) : AState :=
-    if addr < 16384 then a else
-    let n := a.pageAt (addr / 16384)
-    a.withPage n ((a.page n).set (addr % 16384) v)
   let sp := a.regs.sp
-  let a := put a (sp - 1).toNat (hi8 a.regs.pc)
-  put a (sp - 2).toNat (lo8 a.regs.pc)
+  (a.poke (sp - 1).toNat (hi8 a.regs.pc)).poke (sp - 2).toNat (lo8 a.regs.pc)
 
 /-- 48K file of a state: header with SP already decremented, then the 48 KiB with PC pushed -/
 def sna48 (a : AState) : Bytes :=
